@@ -1536,9 +1536,18 @@ impl Linearizer {
         // A row whose variables all cancelled and whose comparison holds says
         // nothing. Literal tautologies are dropped before lowering, dropping
         // these too keeps compiling a rendered model a fixpoint.
-        if value.vars().values().all(|coefficient| *coefficient == 0.0)
-            && comparison_holds(value.rhs(), comparison, 0.0)
-        {
+        if value.vars().values().all(|coefficient| *coefficient == 0.0) {
+            if comparison_holds(value.rhs(), comparison, 0.0) {
+                return Ok(());
+            }
+            // a constant row that fails is written the way a literal
+            // contradiction is, `0 = 1`, for the same reason
+            self.linear_constraints.push(MidLinearConstraint {
+                name,
+                lhs: IndexMap::new(),
+                rhs: 1.0,
+                comparison: Comparison::Equal,
+            });
             return Ok(());
         }
         self.linear_constraints
